@@ -8,6 +8,7 @@
           (used = highest iteration index the model consulted, so the comparer can see that every recorded norm was consumed)
      W n p1..pn w1..wn e        closed-form one-row weighted least-squares step  -> d1..dn
      F n f1..fn p1..pn w1..wn e the same with prescribed slots (f=0) removed and zero-filled -> d1..dn
+     G / H                      the steps with the weights projectQ / projectU use (see below)
    Oracle entries that were not recorded are nan (every comparison with them is false, as in the compiled code). *)
 open C09model
 (*FOPS*)
@@ -61,6 +62,16 @@ let () =
         let f = List.init n (fun i -> bl a.(2 + i)) and p = List.init n (fun i -> fl a.(2 + n + i))
         and w = List.init n (fun i -> fl a.(2 + 2 * n + i)) in
         List.iter pf (wls_step_free fops f p w (fl a.(2 + 3 * n))); print_newline ()
+      | "G" ->   (* G n f1..fn p1..pn uw1..uwn e : projectQ's step for coordinates with qdot = u (weights uw^2) *)
+        let n = int_of_string a.(1) in
+        let f = List.init n (fun i -> bl a.(2 + i)) and p = List.init n (fun i -> fl a.(2 + n + i))
+        and w = List.init n (fun i -> fl a.(2 + 2 * n + i)) in
+        List.iter pf (q_step fops f p w (fl a.(2 + 3 * n))); print_newline ()
+      | "H" ->   (* H n f1..fn p1..pn uw1..uwn u1..un e : projectU's step (relative scaling from u and uw) *)
+        let n = int_of_string a.(1) in
+        let f = List.init n (fun i -> bl a.(2 + i)) and p = List.init n (fun i -> fl a.(2 + n + i))
+        and w = List.init n (fun i -> fl a.(2 + 2 * n + i)) and us = List.init n (fun i -> fl a.(2 + 3 * n + i)) in
+        List.iter pf (u_step fops f p w us (fl a.(2 + 4 * n))); print_newline ()
       | _ -> print_endline "?"
     end
   done with End_of_file -> ()
